@@ -93,6 +93,10 @@ RunResult run(J const &plan) {
   SimRun sim(1);
   uint64_t fp = 1469598103934665603ULL;
   Tol tol;
+  // a fictitious coordinate integrates the 1e-14 rounding of a text state forward (observed: 1.2e-8 relative after 32 steps with a
+  // 43 fs time constant): after a text state such scenarios are compared at 1e-6 (a genuine loss of state is O(1))
+  bool const amplified = !ec.binary_state && config.find("extendedLagrangian on") != std::string::npos;
+  if (amplified) { tol.rtol = 1e-6; tol.atol = 1e-7; }
 
   // ---- reference ----
   std::vector<StepRec> ref;
@@ -247,7 +251,7 @@ RunResult run(J const &plan) {
   }
   if (!res.violation && resumed && !ref_degenerate) {
     std::string fin = e->save_state_string();
-    StateDiff d = compare_state_text(ref_state, fin, 2e-9, 1e-9);
+    StateDiff d = compare_state_text(ref_state, fin, amplified ? 1e-6 : 2e-9, amplified ? 1e-7 : 1e-9);
     if (!d.same) res.fail("final_state", "differs/" + d.context, "token " + std::to_string(d.index) + " ref '" + d.a + "' test '" + d.b + "'");
   }
   add_steps(res, *e);
